@@ -451,8 +451,9 @@ Theorem success_generic (c : calc) (din dout : db) (fk : nat) (s' : st) :
 Proof.
   intros HIi HIo Hwf Hrun.
   unfold wf_success in Hwf. apply andb_true_iff in Hwf as [Hwf Hcl]. apply andb_true_iff in Hwf as [Hwf Hpost].
-  apply andb_true_iff in Hwf as [Hpre Hbody].
-  unfold calc_run in Hrun.
+  apply andb_true_iff in Hwf as [Hwf Hbody]. apply andb_true_iff in Hwf as [Hini Hpre].
+  assert (k_init c = []) as Hk by (destruct (k_init c); [reflexivity | discriminate]).
+  unfold calc_run in Hrun. rewrite Hk in Hrun. cbn [exec_quiet] in Hrun.
   change (budget_of 0 2 fk) with (@None nat) in Hrun. change (budget_of 0 3 fk) with (@None nat) in Hrun.
   change (budget_of 0 4 fk) with (@None nat) in Hrun. change (0 =? 1) with false in Hrun.
   destruct (negb (k_check c (init_st din dout false))); [discriminate|].
